@@ -366,6 +366,27 @@ pub fn panic_sweep(ctx: &Ctx, quick: bool) {
             }
         }
     }
+    // sizes on both sides of the Straus/Pippenger switch and of Pippenger's window choices (2n+1 terms: w = 6 below
+    // 500, 7 below 800, 8 from 800), honest and with one corrupted entry
+    {
+        let sizes: Vec<usize> = if quick { vec![95, 250, 400] } else { vec![94, 95, 96, 249, 250, 251, 399, 400, 401, 640] };
+        ctx.bound("panic_sweep_large_sizes", json!(sizes));
+        let mut jobs: Vec<(usize, Option<(usize, u8)>)> = Vec::new();
+        for &n in &sizes {
+            jobs.push((n, None));
+            jobs.push((n, Some((n - 1, 1))));
+            jobs.push((n, Some((0, 5))));
+        }
+        jobs.par_iter().for_each(|(n, cor)| {
+            ctx.eval(1);
+            let batch: Vec<Entry> = (0..*n)
+                .map(|i| Entry { key: (i % 3) as u8, msg: ((i / 3) % 3) as u8, corrupt: match cor { Some((p, c)) if *p == i => *c, _ => 0 } })
+                .collect();
+            if let Err(e) = run_batch(&w, &batch, (*n, *n, *n)) {
+                ctx.violation("batch.verify_batch.large", &e, json!({"kind": "batch_large", "n": n, "corrupt": cor.map(|(p, c)| vec![p as u64, c as u64])}));
+            }
+        });
+    }
     // adversarial (small-order / mixed-order) keys and R: only "no panic" is required
     let t = crate::model::ed::torsion();
     for j in 0..8 {
